@@ -203,3 +203,92 @@ func sortedKeys(m map[string]bool) []string {
 	sort.Strings(out)
 	return out
 }
+
+// unknownContractKeys: contracts (from package contract files, not the catalog) that name a function or
+// method that does not exist in a package known to the loaded program - almost always a typo, which
+// would silently leave the real callee uncontracted.
+func (P *Program) unknownContractKeys() []string {
+	known := map[string]*types.Package{}
+	var walk func(p *packages.Package)
+	seen := map[string]bool{}
+	walk = func(p *packages.Package) {
+		if seen[p.PkgPath] {
+			return
+		}
+		seen[p.PkgPath] = true
+		if p.Types != nil {
+			known[p.PkgPath] = p.Types
+		}
+		for _, ip := range p.Imports {
+			walk(ip)
+		}
+	}
+	for _, p := range P.pkgs {
+		walk(p)
+	}
+	var bad []string
+	for key, ct := range P.db.Contracts {
+		if !strings.Contains(ct.File, "zz_contracts_verif") && !strings.Contains(ct.File, "govc-contract-") {
+			continue
+		}
+		if strings.HasPrefix(key, "iface:") || strings.HasPrefix(key, "field:") || strings.HasSuffix(key, ".*") {
+			continue
+		}
+		k := key
+		recv := ""
+		if strings.HasPrefix(k, "(") {
+			i := strings.Index(k, ")")
+			if i < 0 {
+				continue
+			}
+			recv = strings.TrimPrefix(k[1:i], "*")
+			k = k[i+1:]
+			if !strings.HasPrefix(k, ".") {
+				continue
+			}
+			meth := k[1:]
+			if d := strings.Index(meth, "$"); d >= 0 {
+				meth = meth[:d] // closure inside the method
+			}
+			j := strings.LastIndex(recv, ".")
+			if j < 0 {
+				continue
+			}
+			pkgPath, tname := recv[:j], recv[j+1:]
+			if b := strings.Index(tname, "["); b >= 0 {
+				tname = tname[:b]
+			}
+			tp, ok := known[pkgPath]
+			if !ok {
+				continue // package not part of this load: cannot judge
+			}
+			obj := tp.Scope().Lookup(tname)
+			if obj == nil {
+				bad = append(bad, key+" (no type "+tname+" in "+pkgPath+")")
+				continue
+			}
+			if o, _, _ := types.LookupFieldOrMethod(types.NewPointer(obj.Type()), true, tp, meth); o == nil {
+				bad = append(bad, key+" (no method "+meth+")")
+			}
+			continue
+		}
+		base := k
+		if d := strings.Index(base, "$"); d >= 0 {
+			base = base[:d]
+		}
+		j := strings.LastIndex(base, ".")
+		if j < 0 {
+			continue
+		}
+		pkgPath, fname := base[:j], base[j+1:]
+		tp, ok := known[pkgPath]
+		if !ok {
+			continue
+		}
+		if fname != "init" && tp.Scope().Lookup(fname) == nil {
+			bad = append(bad, key+" (no function "+fname+" in "+pkgPath+")")
+		}
+	}
+	sort.Strings(bad)
+	return bad
+}
